@@ -21,7 +21,7 @@ for pid, p in claimed.items():
         'level_claimed': {
             'category': 'proof',
             'text': p.get('level_text', p.get('explanation', '')),
-            'design_ref': 'DESIGN.md section 5, ' + pid,
+            'design_ref': 'DESIGN.md section 0.1 (build-phase status) and section 5, ' + pid,
         },
         'level_note': p.get('level_note', 'trusted: x/tools go/ssa, the gvc VC generator, SMT solvers (unsat verdicts), assumed environment contracts in specs/env.contracts; ' + '; '.join(p.get('assumptions', []))),
         'technique': 'contract-based deductive verification: weakest-precondition style VCs generated from go/ssa of the real functions against contracts in contracts_verif.go, discharged by z3/cvc5',
